@@ -79,6 +79,8 @@ type Step struct {
 	Arg    string `json:"arg,omitempty"`   // query: argument
 	Start  string `json:"start,omitempty"` // dump: zero|current|stale|bogus  (CAS of Key in Coll)
 	Plus   uint64 `json:"plus,omitempty"`  // dump: added to the resolved start CAS
+	Nested *KOp   `json:"nested,omitempty"` // kv (Update, WriteUpdateWithXattrs, WriteSubDoc, SubdocInsert): another call on the same key,
+	// made through another handle inside the window between the call's read and its compare-and-swap write
 }
 
 type ViewDef struct {
@@ -243,6 +245,55 @@ type kvRun struct {
 	received int
 	manualExpiry int32
 	url      string
+	win      *windowRun
+}
+
+// A call made inside another call's read-to-write window.  The enclosing call is a compare-and-swap loop,
+// so the model of the pair is sequential: the nested call, then one SDraw step per failed attempt of the
+// loop (each consumed a timestamp), then the enclosing call.
+type windowRun struct {
+	step     Step
+	attempts int
+	begins   int // transactions begun by the enclosing call (one per write attempt, each draws a timestamp)
+	fired    bool
+	busy     bool
+	opT      Term
+	respT    Term
+	live     []any
+	snap     Term
+	err      error
+}
+
+func windowed(kind string) bool {
+	return kind == "Update" || kind == "WriteUpdateWithXattrs" || kind == "WriteSubDoc" || kind == "SubdocInsert"
+}
+
+// called at every pass through the window of the enclosing call
+func (k *kvRun) windowPass() {
+	w := k.win
+	if w == nil || w.busy {
+		return
+	}
+	w.attempts++
+	if w.fired {
+		return
+	}
+	w.fired, w.busy = true, true
+	defer func() { w.busy = false }()
+	kt, respT, err := k.doKv(w.step)
+	if err != nil {
+		w.err = err
+		return
+	}
+	w.opT = C("SKv", S(w.step.Coll), S(w.step.Key), kt)
+	w.respT = respT
+	w.live = k.collectLive(atomic.LoadInt64(&k.posted))
+	snap, err := k.snapshot()
+	if err != nil {
+		w.err = err
+		return
+	}
+	w.snap = snap
 }
 
 func dsName(full string) sgbucket.DataStoreNameImpl {
@@ -855,6 +906,7 @@ func (k *kvRun) doKv(st Step) (opT Term, respT Term, err error) {
 		calls := 0
 		co, e := c.Update(key, op.Exp, func(cur []byte) ([]byte, *uint32, bool, error) {
 			calls++
+			k.windowPass()
 			if calls > 3 {
 				return nil, nil, false, errors.New("callback called too often")
 			}
@@ -924,6 +976,7 @@ func (k *kvRun) doKv(st Step) (opT Term, respT Term, err error) {
 		co, e := c.WriteUpdateWithXattrs(ctxBg, key, kvXnames, 0, nil, mutateOpts(false, op.Macros),
 			func(doc []byte, xattrs map[string][]byte, cas uint64) (sgbucket.UpdatedDoc, error) {
 				calls++
+				k.windowPass()
 				if cb.Kind == "fail" || calls > 2 {
 					return sgbucket.UpdatedDoc{}, errors.New("callback failure")
 				}
@@ -1024,6 +1077,12 @@ func execKvInner(in kvInput, scratch string, prog *kvProgress) (Case, error) {
 		switch point {
 		case "post.snapshot":
 			atomic.AddInt64(&k.posted, 1)
+		case "subdoc.window":
+			k.windowPass()
+		case "txn.begin":
+			if w := k.win; w != nil && !w.busy {
+				w.begins++
+			}
 		case "expiry.fire":
 			// the history decides when the expiry timer fires (steps of kind "expire" call the timer's
 			// callback synchronously); a firing of the real timer is parked for the rest of the process
@@ -1114,10 +1173,38 @@ func execKvInner(in kvInput, scratch string, prog *kvProgress) (Case, error) {
 			if st.Op.Cb != nil && st.Op.Cb.NewExp != nil && *st.Op.Cb.NewExp > 0 && *st.Op.Cb.NewExp <= 2592000 {
 				usesRelExp = true
 			}
+			if st.Nested != nil && windowed(st.Op.Kind) && st.Nested.Cb == nil {
+				ne := st.Nested.Exp
+				if ne > 0 && ne <= 2592000 {
+					usesRelExp = true
+				}
+				oh := st.Handle
+				if st.Coll != "s1.c2" {
+					oh = (st.Handle + 1) % nh
+				}
+				k.win = &windowRun{step: Step{Kind: "kv", Coll: st.Coll, Key: st.Key, Handle: oh, Op: st.Nested, Clock: st.Clock}}
+			}
 			var kt Term
 			kt, respT, err = k.doKv(st)
+			win := k.win
+			k.win = nil
 			if err != nil {
 				return c, err
+			}
+			if win != nil && win.fired {
+				if win.err != nil {
+					return c, win.err
+				}
+				sc := P(C("mkSctx", N(st.Clock), N(uint64(now0)), N(uint64(in.MaxDoc))), win.opT)
+				steps = append(steps, sc)
+				obs = append(obs, C("mkOstep", win.respT, L(win.live...), L(), win.snap))
+				// the transactions the enclosing call began; the model subtracts what the call accounts for itself
+				if win.begins > 0 {
+					steps = append(steps, P(C("mkSctx", N(st.Clock), N(uint64(now0)), N(uint64(in.MaxDoc))), C("SDraw", S(st.Coll), S(st.Key), kt, N(uint64(win.begins)))))
+					obs = append(obs, C("mkOstep", C("ROk"), L(), L(), win.snap))
+				}
+				win.attempts = win.begins
+				k.cells[fmt.Sprintf("window|%s|%s|txns=%d", st.Op.Kind, st.Nested.Kind, win.attempts)] = true
 			}
 			opT = C("SKv", S(st.Coll), S(st.Key), kt)
 			pre := k.class[st.Coll+"/"+st.Key]
